@@ -319,6 +319,7 @@ class ExecutionState:
                         OperationStatus.STOPPED,
                         OperationStatus.TIMED_OUT,
                     }
+                    and not self._is_under_completed_context(op)
                 }
                 if completed_ops.issubset(self._visited_operations):
                     logger.debug(
@@ -326,6 +327,31 @@ class ExecutionState:
                         operation_id,
                     )
                     self._replay_status = ReplayStatus.NEW
+
+    def _is_under_completed_context(self, operation: Operation) -> bool:
+        """Return True if an ancestor context of the operation has a recorded outcome that is returned as is.
+
+        Such a context is not run again on replay, so the operations inside it are never visited
+        and must not keep the execution in REPLAY status. A context completed with ReplayChildren
+        is run again and does not count.
+        """
+        parent_id = operation.parent_id
+        while parent_id:
+            parent = self.operations.get(parent_id)
+            if parent is None:
+                return False
+            if parent.status in {
+                OperationStatus.SUCCEEDED,
+                OperationStatus.FAILED,
+                OperationStatus.CANCELLED,
+                OperationStatus.STOPPED,
+                OperationStatus.TIMED_OUT,
+            } and not (
+                parent.context_details and parent.context_details.replay_children
+            ):
+                return True
+            parent_id = parent.parent_id
+        return False
 
     def is_replaying(self) -> bool:
         """Check if execution is currently in replay mode.
